@@ -217,12 +217,20 @@ class World:
         v = T - 2^64 k (after scaling E by 2^64 when c is not a multiple of 2^64).  Carries are eliminated newest first, which
         walks a multi-word accumulation row back to  x * B + accumulator."""
         s = 1
+        best = None
+        deep = getattr(self, 'deep', 0)
         for _ in range(limit):
             changed = True
             while changed:
                 changed = False
                 sub = {}
                 present = E.atoms()
+                if deep:
+                    # every E reached is an upper bound of the original expression: keep the best interval seen
+                    cur = self.rng(E)[1] // s
+                    best = cur if best is None else min(best, cur)
+                    clos = {a: self.carry_closure(a, deep) for a in present if self.atoms[a]['kind'] == 'val' and self.atoms[a].get('defn') is not None}
+                    pres_c = {a for a in present if self.atoms[a]['kind'] in ('carry', 'borrow', 'hi')}
                 for a in present:
                     at = self.atoms[a]
                     d = at.get('defn')
@@ -238,6 +246,10 @@ class World:
                             continue
                         # ... or whose low-half summand pairs with a high half present in E
                         if any(self.atoms[b]['kind'] == 'lo' and self.atoms[b]['partner'] in present for b in d.atoms()):
+                            sub[a] = d
+                            continue
+                        # ... or (deep mode) whose definition, a few levels down, shares a carry with E or with another sum in E
+                        if deep and (clos[a] & pres_c or any(b != a and clos[a] & cb for b, cb in clos.items())):
                             sub[a] = d
                     elif at['kind'] == 'lo':
                         cl = E.t.get(((a, 1),), 0)
@@ -257,8 +269,33 @@ class World:
                 E = E * wa
                 s *= wa
                 c *= wa
-            E = E + self.atoms[self.atoms[a]['comp']]['defn'] * (c // wa)
-        return self.rng(E)[1] // s
+            comp = self.atoms[a]['comp']
+            E = E + self.atoms[comp]['defn'] * (c // wa)
+            if self.atoms[a].get('exact'):
+                # quotient of a split: keep the remainder term (an identity instead of the relaxation by remainder >= 0), so that it
+                # cancels against the shifted remainder added elsewhere
+                E = E - ZPoly.var(comp) * (c // wa)
+        last = self.rng(E)[1] // s
+        return last if best is None else min(best, last)
+
+    def carry_closure(self, a, depth):
+        key = (a, depth)
+        r = self._clos.get(key) if hasattr(self, '_clos') else None
+        if r is None:
+            if not hasattr(self, '_clos'):
+                self._clos = {}
+            r = set()
+            d = self.atoms[a].get('defn')
+            if d is not None:
+                for b in d.atoms():
+                    kb = self.atoms[b]['kind']
+                    if kb in ('carry', 'borrow', 'hi'):
+                        r.add(b)
+                    elif kb == 'val' and depth > 1:
+                        r |= self.carry_closure(b, depth - 1)
+            r = frozenset(r)
+            self._clos[key] = r
+        return r
 
     def prove_carry_zero(self, k):
         """carry bit k of  v = x + y + cin - 2^64 k  is zero when x + y + cin <= 2^64 - 1"""
@@ -1004,7 +1041,7 @@ def operand_words(m, k, n):
 
 
 # ---------------------------------------------------------------------------------------------- specifications
-def _leftover_ok(pr, D, n, allow_mod=True):
+def _leftover_ok(pr, D, n, allow_mod=True, spec_hi=None):
     """D is the difference result - spec.  Zero, or zero after proving leftover carries zero, or (allow_mod) a multiple of 2^(64n)."""
     if D.is_zero():
         return True, ''
@@ -1017,6 +1054,11 @@ def _leftover_ok(pr, D, n, allow_mod=True):
         D = D.subs(zero)
     if D.is_zero():
         return True, '%d carry bit(s) proven zero by range' % len(zero)
+    if spec_hi is not None and len(D.t) == 1:
+        # stored words + c * k == spec with c >= 2^(width): the stored words are >= 0 and spec < 2^(width) <= c, hence k == 0
+        (mono, c), = D.t.items()
+        if len(mono) == 1 and mono[0][1] == 1 and w.atoms[mono[0][0]]['kind'] == 'carry' and c < 0 and -c >= pr.W ** n > spec_hi >= 0:
+            return True, 'the top carry is zero because the full product fits'
     if allow_mod and D.coeff_gcd_divisible(pr.W ** n):
         return True, 'equal modulo 2^%d' % (64 * n)
     return False, repr(D)
@@ -1031,7 +1073,7 @@ def check_exact(pr, n, spec, ret_weight=None, what=''):
         if not isinstance(pr.ret, ZPoly):
             return False, 'the returned carry/borrow is not a tracked value'
         R = R + pr.x(pr.ret) * (ret_weight * pr.W ** n)
-    ok, why = _leftover_ok(pr, R - pr.x(spec), n, allow_mod=False)
+    ok, why = _leftover_ok(pr, R - pr.x(spec), n, allow_mod=False, spec_hi=(pr.w.rng(spec)[1] if ret_weight is None else None))
     return ok, ('' if ok else 'stored words%s differ from %s by %s' % (' and returned flag' if ret_weight else '', what, why))
 
 
